@@ -2344,3 +2344,21 @@ Qed.
 Theorem fuel_stable cap d g k f :
   generate_ir_fuel cap (ig_fuel g) d g k = Some f -> forall m, (ig_fuel g <= m)%nat -> generate_ir_fuel cap m d g k = Some f.
 Proof. intros E m H. exact (generate_ir_fuel_mono cap d g k _ _ H f E). Qed.
+
+(** * 17. input safety for the graphs the library produces: the only hypotheses left are two booleans on the DEFINITION *)
+Theorem gen_inputs_untouched_library fval a fs gs tr fmts dims g cap k f :
+  GenGraphs_equiv.to_iteration_graphs_src a fs = GM.ROk gs -> GM.identify (GM.a_target a) fs = Some tr -> In g gs ->
+  struct_ok (MkDefinition (GB.up_tref tr) fmts dims) = true -> hygienic (MkDefinition (GB.up_tref tr) fmts dims) = true ->
+  generate_ir cap (MkDefinition (GB.up_tref tr) fmts dims) (GB.up_graph fval g) k = Some f ->
+  forall fuel args st, CI.out_clean st args ->
+    match IRSem.call fuel f args st with
+    | IRSem.Fail x => x <> Num.EWriteInput
+    | IRSem.Returned st' _ _ => CI.out_clean st' args
+    | _ => True
+    end.
+Proof.
+  intros Hsrc Hid Hin Hs Hh E.
+  pose proof (gen_library_graphs_outputs_definition fval a fs gs tr fmts dims Hsrc Hid) as G.
+  rewrite Forall_forall in G. specialize (G g Hin).
+  apply (gen_inputs_untouched cap (MkDefinition (GB.up_tref tr) fmts dims) (GB.up_graph fval g) k f); [rewrite (names_ok_struct _ (GB.up_graph fval g) Hs); exact Hh | exact G | exact E].
+Qed.
